@@ -82,6 +82,14 @@ def _gen_pop_case(rnd, want, opened, dynamic_only=False):
             for v, d in op['vars'].items():
                 if d[0] == 'in':
                     d[1] = 0.0
+            if rnd.random() < 0.12:
+                # pure integrator of an input: the right-hand side consists of the (connected or unconnected) input only
+                des_ = [e_ for e_ in op['eqs'] if e_[0] == 'de']
+                ins_ = [v for v, d in op['vars'].items() if d[0] == 'in']
+                if des_ and ins_:
+                    e_ = rnd.choice(des_)
+                    e_[2] = E.tolist(E.mul(E.num(round(rnd.uniform(0.5, 2.5), 3)), E.var(rnd.choice(ins_))))
+                    op['__integrator'] = True
             ops[opn] = op
             n = rnd.choice([1, 2, 3, 3, 4, 6]) if want != 'pop_n1_connected' else rnd.choice([1, 1, 3])
             params = {}
@@ -238,6 +246,12 @@ def _gen_pop_case(rnd, want, opened, dynamic_only=False):
             continue
         if (set(opened) - {want}) & risk:
             continue
+        # an input of an integrator operator that NO connection targets keeps a non-zero declared default
+        for pn_, p_ in pops.items():
+            if ops[p_['op']].get('__integrator'):
+                for v_, d_ in ops[p_['op']]['vars'].items():
+                    if d_[0] == 'in' and not any(tuple(c_['target']) == (pn_, p_['op'], v_) for c_ in conns):
+                        d_[1] = round(vals.new(), 4)
         return {'ops': ops, 'pops': pops, 'conns': conns}, sorted(risk)
     raise RuntimeError('generator could not satisfy the constraints')
 
@@ -361,6 +375,8 @@ def run_case(case, ctx):
         for c in plan_['conns']:
             mech[{'matrix': 'matrix_connections', 'scalar': 'scalar_connections', 'coupling': 'coupling_connections'}[c['kind']]] = \
                 mech.get({'matrix': 'matrix_connections', 'scalar': 'scalar_connections', 'coupling': 'coupling_connections'}[c['kind']], 0) + 1
+            if plan_['ops'][plan_['pops'][c['target'][0]]['op']].get('__integrator'):
+                mech['pure_input_integrators'] = 1
             if c['kind'] == 'coupling':
                 for key_, cond_ in (('two_equation_couplings', c['form'] in ('two_eq', 'two_eq_src')),
                                     ('couplings_with_constant', c['form'] == 'const_gain'),
